@@ -317,6 +317,9 @@ func (ap *AP) T(axes ...int) (retVal AP, a []int, err error) {
 		for i := 0; i < dims; i++ {
 			axes[i] = dims - 1 - i
 		}
+	} else {
+		// the axes are retained (and later recycled by UT) by the callers: never keep the caller's slice
+		axes = append(make([]int, 0, len(axes)), axes...)
 	}
 	a = axes
 
